@@ -64,21 +64,23 @@ bool gp_file_read_until(
     (*out)[0].c = c;
     ((GPStringHeader*)*out - 1)->length = 1;
 
-    const char* match = delimiter + (delimiter[0] == c);
+    const size_t delimiter_length = strlen(delimiter);
     while (true)
     {
         while (gp_str_length(*out) < gp_str_capacity(*out))
         {
-            if (*match == '\0')
+            // The segment ends where the bytes read so far end with the
+            // delimiter. A running match pointer would miss a delimiter that
+            // starts inside a failed partial match ("aab" in "aaab").
+            if (gp_str_length(*out) >= delimiter_length && memcmp(
+                    *out + gp_str_length(*out) - delimiter_length,
+                    delimiter,
+                    delimiter_length) == 0)
                 goto end;
             c = fgetc(in);
             if (c == EOF)
                 goto end;
             (*out)[((GPStringHeader*)*out - 1)->length++].c = c;
-            if (c == *match)
-                ++match;
-            else
-                match = delimiter;
         }
         gp_str_reserve(out, gp_str_capacity(*out) + 1); // doubles cap
     }
